@@ -429,7 +429,12 @@ class Interp:
         elif isinstance(s, (ast.FunctionDef, ast.AsyncFunctionDef)):
             env[s.name] = ("closure", s, env, env.get("@owner"), None)
         elif isinstance(s, ast.Assert):
-            self.expr(s.test, env, depth)
+            v = self.expr(s.test, env, depth)
+            vc = self.concrete(v) if v[0] == "atom" else v
+            typeish = any(isinstance(x, ast.Call) and isinstance(x.func, ast.Name) and x.func.id in ("type", "isinstance", "len", "hasattr", "callable", "issubclass") for x in ast.walk(s.test))
+            if vc[0] == "c" and not vc[1] and not typeish and isinstance(s.test, ast.Compare):
+                # definitely false under this cell: the statement raises (an undecided test is left alone)
+                raise _Raise(("ext", "AssertionError", []), "AssertionError: %s" % unparse(s.test))
         elif isinstance(s, ast.Delete):
             for t in s.targets:
                 if isinstance(t, ast.Subscript):
